@@ -148,7 +148,7 @@ structure CResult where
   deriving DecidableEq, Repr
 
 def strlen (s : String) : Nat := s.utf8ByteSize
-def hasNul (s : String) : Bool := s.any (fun c => c.val == 0)
+def hasNul (s : String) : Bool := s.toList.any (fun c => c.val == 0)
 
 /-- `to_cstring`: `CString::new(msg).unwrap()` panics on an interior NUL; the boxed slice has
 `len + 1` bytes, alignment 1; the string is leaked. -/
